@@ -5,6 +5,7 @@ package main
 import (
 	"crypto"
 	"crypto/x509"
+	"encoding/base64"
 	"encoding/json"
 	"encoding/xml"
 	"fmt"
@@ -52,7 +53,7 @@ func c17SP() *saml2.SAMLServiceProvider {
 	return sp
 }
 
-var c17Ops = []string{"SigningContext", "BuildAuthRequest", "BuildLogoutRequestDocument", "BuildLogoutResponseDocument", "BuildAuthURLRedirect", "ValidateEncodedResponse(A)", "ValidateEncodedResponse(B)", "RetrieveAssertionInfo(A)", "Metadata", "ValidateLogoutRequest", "GetSigningCertBytes"}
+var c17Ops = []string{"SigningContext", "BuildAuthRequest", "BuildLogoutRequestDocument", "BuildLogoutResponseDocument", "BuildAuthURLRedirect", "ValidateEncodedResponse(A)", "ValidateEncodedResponse(B)", "RetrieveAssertionInfo(A)", "Metadata", "ValidateLogoutRequest", "GetSigningCertBytes", "BuildAuthBodyPost(relay-one)", "BuildAuthBodyPost(relay-two)", "BuildAuthURL(relay-one)"}
 
 var (
 	c17Once                        sync.Once
@@ -86,6 +87,7 @@ type c17Obs struct {
 	Op    int
 	Err   string
 	Text  string // serialised output, tuple, or observation at return time
+	Bytes []byte // the slice the call returned, NOT copied: judged after every thread finished
 	Panic string
 }
 
@@ -163,6 +165,22 @@ func c17Do(sp *saml2.SAMLServiceProvider, op int) (o c17Obs) {
 		} else {
 			o.Text = fmt.Sprint(r.ID, r.SignatureValidated, r.NameID.Value)
 		}
+	case "BuildAuthBodyPost(relay-one)", "BuildAuthBodyPost(relay-two)":
+		relay := "relay-one"
+		if strings.Contains(c17Ops[op], "two") {
+			relay = "relay-two"
+		}
+		b, err := sp.BuildAuthBodyPost(relay)
+		if err != nil {
+			o.Err = err.Error()
+		}
+		o.Bytes = b
+	case "BuildAuthURL(relay-one)":
+		u, err := sp.BuildAuthURL("relay-one")
+		if err != nil {
+			o.Err = err.Error()
+		}
+		o.Text = u
 	case "GetSigningCertBytes":
 		b, err := sp.GetSigningCertBytes()
 		if err != nil {
@@ -230,6 +248,54 @@ func c17Judge(o c17Obs) string {
 		if alg != c17Alg {
 			return "redirect SigAlg " + alg + " is not the configured one"
 		}
+	case "BuildAuthBodyPost(relay-one)", "BuildAuthBodyPost(relay-two)":
+		want := "relay-one"
+		if strings.Contains(c17Ops[o.Op], "two") {
+			want = "relay-two"
+		}
+		toks, err := recipient.TokenizeHTML(string(o.Bytes))
+		if err != nil {
+			return "returned page does not tokenize: " + err.Error()
+		}
+		relay, msg := "", ""
+		for _, t := range toks {
+			if t.Kind == "start" && t.Name == "input" {
+				var name, value string
+				for _, a := range t.Attrs {
+					if a.Name == "name" {
+						name = a.Value
+					}
+					if a.Name == "value" {
+						value = a.Value
+					}
+				}
+				switch name {
+				case "RelayState":
+					relay = value
+				case "SAMLRequest":
+					msg = value
+				}
+			}
+		}
+		if relay != want {
+			return fmt.Sprintf("returned page carries RelayState %q, the caller passed %q", relay, want)
+		}
+		raw, err := base64Decode(msg)
+		if err != nil {
+			return "SAMLRequest field is not base64"
+		}
+		return verifyDoc(string(raw), "AuthnRequest")
+	case "BuildAuthURL(relay-one)":
+		_, params := recipient.SplitURL(o.Text)
+		ok := false
+		for _, p := range params {
+			if p.RawName == "RelayState" && p.RawValue == "relay-one" {
+				ok = true
+			}
+		}
+		if !ok {
+			return "returned URL does not carry the caller's RelayState"
+		}
 	case "ValidateEncodedResponse(A)":
 		if o.Text != c17TupA+"true" {
 			return "validation result differs from the sequential one"
@@ -273,6 +339,7 @@ func c17Scenarios(thorough bool) []c17Scenario {
 		{"RetrieveAssertionInfo(A) || Validate(B);ValidateLogoutRequest", [][]int{{o("RetrieveAssertionInfo(A)")}, {o("ValidateEncodedResponse(B)"), o("ValidateLogoutRequest")}}},
 		{"3 threads: SigningContext || BuildAuthRequest || Validate(A)", [][]int{{o("SigningContext")}, {o("BuildAuthRequest")}, {o("ValidateEncodedResponse(A)")}}},
 		{"3 threads: GetSigningCertBytes;BuildLogoutRequestDocument || Metadata || RetrieveAssertionInfo(A)", [][]int{{o("GetSigningCertBytes"), o("BuildLogoutRequestDocument")}, {o("Metadata")}, {o("RetrieveAssertionInfo(A)")}}},
+		{"BuildAuthBodyPost(relay-one) || BuildAuthBodyPost(relay-two);BuildAuthURL", [][]int{{o("BuildAuthBodyPost(relay-one)")}, {o("BuildAuthBodyPost(relay-two)"), o("BuildAuthURL(relay-one)")}}},
 	}
 	if thorough {
 		s = append(s,
@@ -357,10 +424,49 @@ func c17Replay(raw json.RawMessage) ([]string, string) {
 
 // ---------- (b) call histories ----------
 
-var c17HistOps = []string{"validate(A)", "validate(B)", "validate(tampered)", "validateLogoutRequest", "validateLogoutResponse", "BuildAuthRequest", "Metadata", "RetrieveAssertionInfo(A)", "scribble-over-previous-result"}
+var c17HistOps = []string{"validate(A)", "validate(B)", "validate(tampered)", "validateLogoutRequest", "validateLogoutResponse", "BuildAuthRequest", "Metadata", "RetrieveAssertionInfo(A)", "scribble-over-previous-result", "BuildAuthBodyPost(relay-one)", "BuildAuthBodyPost(relay-two)"}
 
 type c17HistState struct {
 	last interface{}
+	// results handed out earlier and still held by the caller, with what they looked like
+	// when they were returned: a later call must not change them
+	held []c17Held
+}
+
+type c17Held struct {
+	step int
+	op   string
+	obj  interface{}
+	was  string
+}
+
+func c17Render(v interface{}) string {
+	switch x := v.(type) {
+	case []byte:
+		return string(x)
+	case *types.Response:
+		if x == nil {
+			return "nil"
+		}
+		return oracle.FromResponse(x).Key() + fmt.Sprint(x.SignatureValidated)
+	case *saml2.AssertionInfo:
+		if x == nil {
+			return "nil"
+		}
+		ks := []string{}
+		for k := range x.Values {
+			ks = append(ks, k+"="+strings.Join(x.Values.GetAll(k), ","))
+		}
+		sort.Strings(ks)
+		return x.NameID + "|" + x.SessionIndex + "|" + strings.Join(ks, ";")
+	case *types.EntityDescriptor:
+		if x == nil {
+			return "nil"
+		}
+		b, _ := xml.Marshal(x)
+		return string(b)
+	}
+	return ""
 }
 
 func c17HistStep(sp *saml2.SAMLServiceProvider, op int, st *c17HistState) string {
@@ -422,7 +528,18 @@ func c17HistStep(sp *saml2.SAMLServiceProvider, op int, st *c17HistState) string
 		}
 		sort.Strings(ks)
 		return i.NameID + "|" + i.SessionIndex + "|" + strings.Join(ks, ";") + fmt.Sprint(len(i.Assertions), i.ResponseSignatureValidated)
+	case "BuildAuthBodyPost(relay-one)", "BuildAuthBodyPost(relay-two)":
+		o := c17Do(sp, opIdx(c17HistOps[op]))
+		st.last = o.Bytes
+		if why := c17Judge(o); why != "" {
+			return "bad:" + why
+		}
+		return "ok"
 	case "scribble-over-previous-result":
+		// the scribbled object is no longer expected to stay as it was
+		if n := len(st.held); n > 0 && st.held[n-1].obj != nil && fmt.Sprintf("%p", st.held[n-1].obj) == fmt.Sprintf("%p", st.last) {
+			st.held = st.held[:n-1]
+		}
 		switch v := st.last.(type) {
 		case *types.Response:
 			if v != nil {
@@ -596,6 +713,18 @@ func c17HistoryExec(hist []int) (keys []string, detail string) {
 	for i, op := range hist {
 		names = append(names, c17HistOps[op])
 		got := c17HistStep(sp, op, st)
+		// results handed out by earlier steps must still look as they did
+		for _, h := range st.held {
+			if now := c17Render(h.obj); now != h.was {
+				keys = append(keys, "C17/history/earlier-result-changed-by-later-call/"+h.op)
+				detail += fmt.Sprintf(" | the result of step %d (%s) changed after step %d (%s)", h.step, h.op, i, c17HistOps[op])
+			}
+		}
+		if c17HistOps[op] != "scribble-over-previous-result" && st.last != nil {
+			if w := c17Render(st.last); w != "" && w != "nil" {
+				st.held = append(st.held, c17Held{step: i, op: c17HistOps[op], obj: st.last, was: w})
+			}
+		}
 		after := snapshotSP(sp)
 		if after != before {
 			keys = append(keys, "C17/history/configuration-modified-by/"+c17HistOps[op])
@@ -647,7 +776,7 @@ func c17Run(r *mc.Run) {
 	if r.Thorough() {
 		bound = 3
 	}
-	r.Rule = "(a) E-SCHED: every interleaving with <= 2 (quick) / <= 3 (thorough) preemptions (unbounded for the first-use race) of 9 (thorough 11) scenarios of 2-3 managed goroutines x 1-2 operations out of 11 on one shared SP with a non-default algorithm and canonicaliser, on an overlay build whose scheduling points are the sync shim operations plus a yield before every statement touching a written package-level variable or written SAMLServiceProvider field; oracle: no deadlock/panic, every call returns what it returns alone on a fresh SP, SigningContext fully configured when observed. (b) E-BFS over call histories: all sequences up to depth 3 (quick) / 4 (thorough) over 9 operations incl. scribbling over the previous result; deep reflective snapshot of the configuration unchanged, outcome equal to a fresh instance. (c) free-running -race pass of the same bodies (sampling; supporting). non-trivial = an execution with at least one preemption, or a history of length >= 2; distinct = distinct schedule / history"
+	r.Rule = "(a) E-SCHED: every interleaving with <= 2 (quick) / <= 3 (thorough) preemptions (unbounded for the first-use race) of 10 (thorough 12) scenarios of 2-3 managed goroutines x 1-2 operations out of 14 on one shared SP with a non-default algorithm and canonicaliser, on an overlay build whose scheduling points are the sync shim operations plus a yield before every statement touching a written package-level variable or written SAMLServiceProvider field; oracle: no deadlock/panic, every call returns what it returns alone on a fresh SP, SigningContext fully configured when observed. (b) E-BFS over call histories: all sequences up to depth 3 (quick) / 4 (thorough) over 11 operations incl. scribbling over the previous result; deep reflective snapshot of the configuration unchanged, outcome equal to a fresh instance, and every result handed out earlier still unchanged after every later call. (c) free-running -race pass of the same bodies (sampling; supporting). non-trivial = an execution with at least one preemption, or a history of length >= 2; distinct = distinct schedule / history"
 	r.Assume("scheduling points are sufficient only together with the race pass (c), which is sampling", "the overlay is regenerated from /repo's working tree on every run (instr report in evidence)")
 	if b, err := os.ReadFile(os.Getenv("VERIF_INSTR_REPORT")); err == nil {
 		var rep map[string]interface{}
@@ -789,3 +918,5 @@ func init() {
 	}
 	register("C17", &check{run: c17Run, replay: c17Replay, quick: 400 * time.Second, thor: 2400 * time.Second})
 }
+
+func base64Decode(s string) ([]byte, error) { return base64.StdEncoding.DecodeString(s) }
